@@ -19,4 +19,11 @@ Section Run.
     destruct (step s) as [s' | c | st |] eqn:E; cbn [bind]; try exact I; try contradiction.
     apply IH. apply Hpres. reflexivity.
   Qed.
+  (* the full statement of C07 for a machine [step] with invariant [Inv] *)
+  Definition full_statement : Prop :=
+    (forall s, Inv s -> no_panic (step s) /\ (forall s', step s = Ok s' -> Inv s')) /\
+    (forall n s, Inv s -> no_panic (run state step n s)).
+
+  Theorem run_from_step : step_safe -> full_statement.
+  Proof. intros H. split; [exact H | exact (run_no_panic H)]. Qed.
 End Run.
